@@ -99,6 +99,7 @@ let parse_cop (t : string list) : cop =
   | [ "CNewInt64"; z; x ] -> CNewInt64 (v z, zs x)
   | [ "CNewUint64"; z; x ] -> CNewUint64 (v z, zs x)
   | [ "CNilOperand"; z ] -> CNilOperand (v z)
+  | [ "CNilOperand"; z; _ ] -> CNilOperand (v z)      (* second token: which operation receives the nil operand *)
   | _ -> CPlain (parse_op t)
 
 let print_dec buf (d : dec) =
